@@ -72,6 +72,25 @@ Theorem c16_rotation_lossless : forall h m ops,
   readback (rrun h (init_state [] m) ops) = logged ops.
 Proof. exact rotation_lossless. Qed.
 
+(** In the property's words — "after a flush every message logged so far can be
+    read back from the log files": [readback_disk] reads what is in the files,
+    not what is still in the bufio.Writer. *)
+Theorem c16_rotation_lossless_after_flush : forall h m ops,
+  0 <= h -> Forall (good_op 0) ops -> no_gc ops = true ->
+  readback_disk (do_flush (rrun h (init_state [] m) ops)) = logged ops.
+Proof. exact rotation_lossless_after_flush. Qed.
+
+(** Flush(), in buffered or in sync mode, leaves nothing buffered ... *)
+Theorem c16_flush_leaves_nothing_buffered : forall s,
+  on_disk (do_flush s) = dir s /\ readback_disk (do_flush s) = readback s.
+Proof. exact flush_leaves_nothing_buffered. Qed.
+
+(** ... and in sync mode (entered through SetSync(true), which flushes) every
+    write is in the file when the logging call returns, for every history. *)
+Theorem c16_sync_mode_writes_through : forall h ops s, SyncInv s ->
+  SyncInv (rrun h s ops) /\ (syncw (rrun h s ops) = true -> on_disk (rrun h s ops) = dir (rrun h s ops)).
+Proof. exact sync_mode_writes_through. Qed.
+
 (** With GC runs interleaved and files already present: what is read back is
     what was there plus what was logged, minus a prefix (the oldest files). *)
 Theorem c16_rotation_gc_history : forall pmax h, 0 <= h -> forall ops s,
@@ -133,3 +152,11 @@ Example c16_rotation_nonvacuous :
   /\ map (fun f => (f_stamp f, f_size f, f_msgs f)) (dir (rrun 100 (init_state [] 300) (removelast ops)))
     = [(12, 590, [3; 4]); (11, 250, [2]); (10, 190, [1])].
 Proof. vm_compute. split; reflexivity. Qed.
+
+(** buffered messages are not in the files until a flush; SetSync(true) flushes *)
+Example c16_buffering_nonvacuous :
+  let s := rrun 100 (init_state [] 1000) [RLog 10 10 1 90; RLog 10 10 2 90] in
+  readback_disk s = [] /\ readback s = [1; 2] /\
+  readback_disk (rstep 100 s (RSetSync true)) = [1; 2] /\
+  readback_disk (rrun 100 s [RSetSync true; RLog 10 10 3 90]) = [1; 2; 3].
+Proof. vm_compute. repeat split. Qed.
